@@ -489,7 +489,7 @@ func func_decimalSlice(rtParams FunctionParameterTypes, val any, decimalSliceFun
 		return newSlc[0], nil
 	}
 
-	return decimalSliceFunction(newSlc[0], newSlc[1:]...), nil
+	return decimalResult(func() decimal.Decimal { return decimalSliceFunction(newSlc[0], newSlc[1:]...) })
 
 notArrayOfNumbers:
 	return false, fmt.Errorf("not an array of numbers")
@@ -530,10 +530,22 @@ func func_decimal(rtParams FunctionParameterTypes, val any, decSlcFunc func(deci
 	}
 
 	if valIfc, ok := val.(decimal.Decimal); ok {
-		return decSlcFunc(valIfc, param), nil
+		return decimalResult(func() decimal.Decimal { return decSlcFunc(valIfc, param) })
 	}
 
 	return false, fmt.Errorf("not a number")
+}
+
+// decimalResult runs an operation of the decimal package. That package panics when the exponent of a result
+// does not fit its 32 bits (1e2000000000 times itself): here that is an error like any other.
+func decimalResult(op func() decimal.Decimal) (out any, err error) {
+	defer func() {
+		if r := recover(); r != nil {
+			out, err = false, fmt.Errorf("number out of range: %v", r)
+		}
+	}()
+
+	return op(), nil
 }
 
 const FT_AsArray FT_FunctionType = "AsArray"
